@@ -128,6 +128,7 @@ def engine_ksched(pid, tier, seed, res, max_n=None):
                 c["mode"] = "call"
                 c.pop("setup", None)
                 c.pop("target", None)
+                sched_cases.refresh_derived(c, rng)
                 cases.append(c)
                 exhaustive += 1
     records = []
@@ -155,6 +156,7 @@ def engine_ksched(pid, tier, seed, res, max_n=None):
                 c["flags"] = {k2: v2 for k2, v2 in c["flags"].items() if int(k2) < n_ and (v2[0] == "const" or v2[1] < int(k2))}
                 c["fails"] = [i for i in c["fails"] if i < n_]
                 c["maxc"] = rng.randint(1, 3)
+                sched_cases.refresh_derived(c, rng)
                 dfs_cases.append(c)
     for c in dfs_cases:
         if n_bad >= 4:
